@@ -58,7 +58,18 @@ def run(R, tier, seed):
     chunks = [(R, seed, list(range(c, pool, 64)), tier) for c in range(64)]
     probes = sorted((p for ch in core.fork_map(_probe, chunks, timeout=CASE_TIMEOUT[tier], what='C19 pool chunk')
                      for p in ch), key=lambda p: p['idx'])
-    chosen, novel = c19.select_cases(probes, n)
+    chosen, novel, coin = c19.select_cases(probes, n)
+    coin_pool = set()
+    coin_chosen = set()
+    chosen_set = set(chosen)
+    for p in probes:
+        coin_pool |= (p.get('coin') or set())
+        if p['idx'] in chosen_set:
+            coin_chosen |= (p.get('coin') or set())
+    coin_kinds = {}
+    for f in coin_chosen:
+        coin_kinds[f[0]] = coin_kinds.get(f[0], 0) + 1
+    n_solved = sum(1 for i in chosen if i % 6 == 4)
     pool_lines = set()
     for p in probes:
         pool_lines |= p['lines']
@@ -113,15 +124,41 @@ def run(R, tier, seed):
                 break
 
     # violations -> groups by signature (one replay per signature, the earliest case, the smallest k)
-    groups = {}
+    cands = {}
     for v in viols:
-        sig = json.dumps(c19.signature(v), sort_keys=True)
-        g = groups.get(sig)
-        if g is None or (v['idx'], v['k']) < (g['idx'], g['k']):
-            groups[sig] = v
+        cands.setdefault(json.dumps(c19.signature(v), sort_keys=True), []).append(v)
+    groups = {}
+    history_dependent = []
+    for sig, vs in sorted(cands.items())[:8]:
+        # a violation counts only if the interrupted execution shows it when it is the first interrupted count of its
+        # process; up to six executions per signature (from different cases where possible) are tried
+        vs.sort(key=lambda v: (v['idx'], v['k']))
+        tries = []
+        seen_idx = set()
+        for v in vs:
+            if v['idx'] not in seen_idx or len(tries) < 2:
+                tries.append(v)
+                seen_idx.add(v['idx'])
+            if len(tries) >= 6:
+                break
+        for v in tries:
+            try:
+                ok = core.fork_call(c19.confirm_pristine, (R, seed, v, tier), timeout=600, what='C19 confirm')
+            except core.ChildFailed:
+                ok = True      # let the strict replay decide
+            if ok:
+                groups[sig] = v
+                break
+        else:
+            v = tries[0]
+            msg = ("NOTE C19: %d interrupted executions show [%s] only after other interrupted counts ran in the same "
+                   "process (first: case %d, %s event %d); alone in a fresh process they do not -- history dependence "
+                   "is C20's subject, not a C19 verdict" % (len(vs), sig[:160], v['idx'], v['event'], v['k']))
+            print(msg)
+            history_dependent.append(msg)
     out_groups = []
     seen_final = set()
-    for sig, v in sorted(groups.items())[:8]:
+    for sig, v in sorted(groups.items()):
         try:
             rep = core.fork_call(c19.minimise, (R, seed, v, tier), timeout=600, what='C19 minimise')
         except core.ChildFailed as e:
@@ -152,6 +189,13 @@ def run(R, tier, seed):
         samples=samples,
         exhaustive=False,
         candidate_pool=pool, cases_chosen_for_new_line_coverage=len(novel),
+        cases_chosen_for_new_numeric_coincidence=len(coin), cases_solved_for_coincidences=n_solved,
+        coincidence_features=dict(distinct_in_pool=len(coin_pool), distinct_in_chosen_cases=len(coin_chosen),
+                                  by_kind_in_chosen_cases=coin_kinds,
+                                  note="(kind, rule, action tag, candidate code) tuples seen in the uninterrupted "
+                                       "records: a vote exactly on / one raw unit off the quota, two consecutive "
+                                       "actions with identical candidate state, ties among leaders or trailers, a "
+                                       "transfer of exactly zero"),
         package_lines_executed_by_pool=len(pool_lines),
         cases=len(results), cases_explored=explored, cases_exhaustive_at_line_level=exhaustive,
         unexplored=unexplored,
@@ -170,6 +214,7 @@ def run(R, tier, seed):
         steps_per_hour=int(steps / wall * 3600) if wall > 0 else 0,
         simulated_time_unit="line/opcode trace events in package code inside Election.count()",
         violation_signatures=len(groups), raw_violations=len(viols), known_findings_matched=known,
+        history_dependent_signatures_dropped=len(history_dependent),
         run_digest=core.digest(digest_src),
         components=dict(real=REAL, stub=STUB),
         tree=R.tree, workers=core.nproc(),
